@@ -442,6 +442,8 @@ func runC09(c *Ctx) {
 
 	c09NoSharedWalkerState(c, "C09-D8")
 	reflectMapStoreRule(c, "C09-D9")
+	c09MapWalkers(c)
+	c09PlaceholderSlots(c)
 
 	c.Rule("C09-D4", "placeholder agreement: the JSON keys the encoder writes (struct tags of `placeholder`) are the literals the decoder compares; placeholder numbers are 0-based on the wire and the decoder adds 1 because the encoder prepends the header frame; attachments are counted once each", 8)
 	{
